@@ -11,7 +11,7 @@ import routing_gen as rg
 CODE_TEXT = {
     "1": "a message carrying a reply serial reached a connection that has no open call to its sender",
     "2": "a send produced something other than exactly one forward of that message (plus at most one copy per eavesdropping connection, none extra for the addressed recipient) or one error to its sender",
-    "3": "the message was delivered to a connection that is not the primary owner of its destination",
+    "3": "the message (or a copy of it) reached a connection that is neither the primary owner of its destination nor the holder of a matching eavesdrop rule",
     "4": "NoReply errors are not exactly one per open call ended by callee disconnect / timeout",
     "5": "an unrequested reply was refused with an error other than AccessDenied",
     "6": "a call was passed on although its sender already had max_replies_per_connection open calls",
